@@ -55,6 +55,10 @@ def cases(draw, tier="quick"):
         c["nopath"] = True
     if c["tor"] == "pass":
         c["relay"] = True
+    # strangers that reach a listener before the transit key is known (the listener starts with
+    # get_connection_hints(), the key arrives later from the key exchange): [side, script kind]
+    c["early"] = draw(st.lists(st.tuples(st.sampled_from(["s", "r"]), st.sampled_from(["silent", "silent", "random"])).map(list),
+                               max_size=2)) if draw(st.integers(0, 3)) == 0 else []
     c["late"] = draw(st.sampled_from([None, None, "s", "r"]))
     # the rogue listeners behind hints answer the SYN only 70 s after the start (a slow or far endpoint): such a
     # contender is still in the middle of its handshake when a connect() without any path reaches its deadline
@@ -189,9 +193,29 @@ def run_case(c):
         hs, hr = [], []
         s.get_connection_hints().addCallback(hs.extend)
         r.get_connection_hints().addCallback(hr.extend)
+        rogue_factories = []
+        n_early = 0
+        for (side, kind) in c.get("early") or []:
+            ports = [h["port"] for h in (hs if side == "s" else hr) if h.get("type") == "direct-tcp-v1"]
+            if not ports:
+                continue
+            f = RogueF(rogue_script(kind, side == "s", key, 7))
+            rogue_factories.append(f)
+            nx.connectTCP("10.0.0.x", ports[0], f)
+            n_early += 1
+        if n_early:
+            # the strangers' connections are established (and whatever they and the listener write is
+            # delivered) before the key exchange has produced the transit key
+            for _ in range(60):
+                ev = [e for e in W.enabled() if e[0].startswith("net.")]
+                if not ev:
+                    break
+                try:
+                    W.do(ev[0], None)
+                except Exception:
+                    pass
         s.set_transit_key(key)
         r.set_transit_key(key)
-        rogue_factories = []
         rogue_ports = set()
         rogue_listen_hints = {"s": [], "r": []}
         for (kind, where, param) in c["rogues"]:
@@ -377,7 +401,7 @@ def run_case(c):
                     res.violate("one", "the sender wrote 'go' on %d links" % go_links, input_class="go-on-%d-links" % go_links)
                 for f in rogue_factories:
                     for p in f.protos:
-                        if p.transport.peer is ts or p.transport.peer is tr:
+                        if p.transport is not None and (p.transport.peer is ts or p.transport.peer is tr):
                             res.violate("keyholders", "a rogue end is on the selected link; %s" % info,
                                         input_class="rogue-selected")
         if at_resolution and not at_resolution.get("ok"):
@@ -427,12 +451,18 @@ def run_case(c):
             res.violate("errlog", "exception escaped %s: %r" % (kind, ex), input_class="escaped:%s" % type(ex).__name__,
                         exc=type(ex).__name__)
         for (exc, frame, msg) in W.error_summaries():
+            if n_early and exc == "AssertionError" and frame and frame.endswith("_send_this"):
+                # a connection that arrives before set_transit_key(): the pinned code asserts in connectionMade,
+                # the exception is logged and the stranger is never selected. The statement promises no silence
+                # here; tallied as an observation (DESIGN 9.5)
+                res.notes["early_connection_assertion_logged"] += 1
+                continue
             if frame is not None or exc in ("NoTransition", "AssertionError", "TypeError", "KeyError", "AttributeError"):
                 res.violate("errlog", "logged %s at %s: %s" % (exc, frame, msg), input_class="errlog:%s@%s" % (exc, frame),
                             exc=exc, frame=frame)
                 break
         res.nontrivial = established[0] >= 2 or bool(c["rogues"]) or nopath
-        res.features = dict(nl="%d%d" % (c["nl_s"], c["nl_r"]), relay=("two" if c.get("relay2") else "alias" if c.get("relay_alias") else c["relay"]), rogues=len(c["rogues"]), nopath=nopath,
+        res.features = dict(early=n_early, nl="%d%d" % (c["nl_s"], c["nl_r"]), relay=("two" if c.get("relay2") else "alias" if c.get("relay_alias") else c["relay"]), rogues=len(c["rogues"]), nopath=nopath,
                             slow=bool(c.get("slow_rogues")), prior=str(prior_done),
                             late=c["late"] or "-", tor=c.get("tor") or "-", est=common.bucket(established[0], [0, 1, 2, 4]),
                             probes=len(probes), ok=ok(S) and ok(R))
